@@ -755,3 +755,150 @@ Example hidden_example :
   = man_page (ex_cmd [vis_a] [vis_s]) no_overrides
   /\ exists page, man_page (ex_cmd [vis_a] [vis_s]) no_overrides = Ok page.
 Proof. vm_compute. split; [reflexivity|eexists; reflexivity]. Qed.
+
+(** ** visible arguments in the OPTIONS part *)
+
+(** the name in the header of the argument's [.TP] entry *)
+Definition header_name (a : marg) : inline :=
+  match a_short a, a_long a with
+  | _, Some long => Bold (dashdash ++ long)
+  | Some short, None => Bold (dash ++ short)
+  | None, None => Italic (pos_name a)
+  end.
+
+Lemma options_opt_lists a d :
+  options_opt a = Ok d -> is_positional a = false -> exists inl, In (Text inl) d /\ In (header_name a) inl.
+Proof.
+  unfold options_opt, is_positional, header_name. intros H Hp.
+  destruct (a_num_args a) as [na|]; [|discriminate].
+  destruct (option_default_values a) as [defs|]; [|cbn [bind] in H; discriminate]. cbn [bind] in H.
+  destruct (help_body a) as [body written]. apply Ok_inj in H. subst d.
+  eexists. split; [right; left; reflexivity|].
+  apply in_or_app. left. apply in_or_app. left.
+  destruct (a_short a), (a_long a); cbn in Hp |- *; try discriminate; tauto.
+Qed.
+
+Lemma options_pos_lists a d :
+  options_pos a = Ok d -> is_positional a = true -> exists inl, In (Text inl) d /\ In (header_name a) inl.
+Proof.
+  unfold options_pos, is_positional, header_name. intros H Hp.
+  destruct (option_markers a) as [lhs rhs].
+  destruct (option_default_values a) as [defs|]; [|cbn [bind] in H; discriminate]. cbn [bind] in H.
+  destruct (help_body a) as [body written]. apply Ok_inj in H. subst d.
+  eexists. split; [right; left; reflexivity|].
+  apply in_or_app. left.
+  destruct (a_short a), (a_long a); cbn in Hp |- *; try discriminate; tauto.
+Qed.
+
+Lemma concat_res_lists {A} (f : A -> res (list line)) l d x (P : list inline -> Prop) :
+  concat_res f l = Ok d -> In x l ->
+  (forall y, f x = Ok y -> exists inl, In (Text inl) y /\ P inl) ->
+  exists inl, In (Text inl) d /\ P inl.
+Proof.
+  unfold concat_res. intros H Hin Hf.
+  destruct (map_res f l) as [ys|] eqn:E; [|cbn [bind] in H; discriminate]. cbn [bind] in H.
+  apply Ok_inj in H. subst d. apply map_res_ok in E.
+  induction E as [|x0 y l ys Hxy _ IH]; [destruct Hin|].
+  destruct Hin as [->|Hin].
+  - destruct (Hf _ Hxy) as (inl & H1 & H2). exists inl. split; [|exact H2]. cbn [concat]. apply in_or_app. tauto.
+  - destruct (IH Hin) as (inl & H1 & H2). exists inl. split; [|exact H2]. cbn [concat]. apply in_or_app. tauto.
+Qed.
+
+Lemma options_lists items d a :
+  options items = Ok d -> In a items -> exists inl, In (Text inl) d /\ In (header_name a) inl.
+Proof.
+  unfold options. intros H Hin.
+  destruct (concat_res options_opt _) as [o|] eqn:Eo; [|cbn [bind] in H; discriminate]. cbn [bind] in H.
+  destruct (concat_res options_pos _) as [p|] eqn:Ep; [|cbn [bind] in H; discriminate]. cbn [bind] in H.
+  apply Ok_inj in H. subst d.
+  destruct (is_positional a) eqn:Epos.
+  - destruct (concat_res_lists options_pos _ _ a (fun inl => In (header_name a) inl) Ep) as (inl & H1 & H2).
+    + apply filter_In. tauto.
+    + intros y Hy. apply (options_pos_lists a y Hy Epos).
+    + exists inl. split; [apply in_or_app; tauto|exact H2].
+  - destruct (concat_res_lists options_opt _ _ a (fun inl => In (header_name a) inl) Eo) as (inl & H1 & H2).
+    + apply filter_In. rewrite Epos. tauto.
+    + intros y Hy. apply (options_opt_lists a y Hy Epos).
+    + exists inl. split; [apply in_or_app; tauto|exact H2].
+Qed.
+
+Lemma heading_sections_lists hs : forall rest d a h,
+  heading_sections hs rest = Ok d -> In a rest -> a_heading a = Some h -> In h hs ->
+  exists inl, In (Text inl) d /\ In (header_name a) inl.
+Proof.
+  induction hs as [|h0 hs IH]; intros rest d a h H Hin Hh Hhs; [destruct Hhs|].
+  cbn [heading_sections] in H. rewrite partition_as_filter in H.
+  destruct (options _) as [o|] eqn:Eo; [|cbn [bind] in H; discriminate]. cbn [bind] in H.
+  destruct (heading_sections hs _) as [r|] eqn:Er; [|cbn [bind] in H; discriminate]. cbn [bind] in H.
+  apply Ok_inj in H. subst d.
+  destruct (opt_beq (a_heading a) (Some h0)) eqn:Eb.
+  - destruct (options_lists _ _ a Eo) as (inl & H1 & H2); [apply filter_In; tauto|].
+    exists inl. split; [right; apply in_or_app; tauto|exact H2].
+  - assert (In h hs) as Hhs'.
+    { destruct Hhs as [<-|Hhs]; [|exact Hhs]. rewrite Hh in Eb. cbn [opt_beq] in Eb. rewrite beq_refl in Eb. discriminate. }
+    destruct (IH _ _ a h Er) as (inl & H1 & H2); [apply filter_In; rewrite Eb; tauto|exact Hh|exact Hhs'|].
+    exists inl. split; [right; apply in_or_app; tauto|exact H2].
+Qed.
+
+Lemma help_headings_complete vis a h : In a vis -> a_heading a = Some h -> In h (help_headings vis).
+Proof.
+  intros Hin Hh. unfold help_headings.
+  assert (In h (filter_map a_heading vis)) as Hf.
+  { unfold filter_map. apply in_flat_map. exists a. rewrite Hh. split; [exact Hin|left; reflexivity]. }
+  assert (forall l acc, In h acc \/ In h l ->
+            In h (fold_left (fun acc h' => if existsb (beq h') acc then acc else acc ++ [h']) l acc)) as G.
+  { induction l as [|x l IHl]; intros acc [H|H]; cbn [fold_left]; try assumption; try (destruct H; fail).
+    - apply IHl. left. destruct (existsb (beq x) acc); [exact H|apply in_or_app; tauto].
+    - destruct H as [->|H]; [|apply IHl; tauto].
+      apply IHl. left. destruct (existsb (beq h) acc) eqn:E.
+      + apply existsb_exists in E. destruct E as (y & Hy & Ey). apply beq_eq in Ey. subst y. exact Hy.
+      + apply in_or_app. right. left. reflexivity. }
+  apply G. right. exact Hf.
+Qed.
+
+(** Every visible argument has its entry in the OPTIONS part (under OPTIONS or under its heading),
+    with its name in the header of the entry. *)
+Theorem visible_arg_in_options m os a :
+  render_options_section m = Ok os -> In a (c_args (m_cmd m)) -> a_hide a = false ->
+  exists inl, In (Text inl) os /\ In (header_name a) inl.
+Proof.
+  unfold render_options_section. intros H Hin Hv. rewrite partition_as_filter in H.
+  set (vis := filter visible (c_args (m_cmd m))) in *.
+  assert (In a vis) as Hvis by (apply filter_In; unfold visible; rewrite Hv; tauto).
+  destruct (match filter (fun a0 => negb (is_some (a_heading a0))) vis with
+            | [] => Ok []
+            | _ :: _ => bind (options (filter (fun a0 => negb (is_some (a_heading a0))) vis)) (fun o => Ok (Control rq_SH [h_OPTIONS] :: o))
+            end) as [s0|] eqn:E0; [|cbn [bind] in H; discriminate]. cbn [bind] in H.
+  destruct (heading_sections _ _) as [s1|] eqn:E1; [|cbn [bind] in H; discriminate]. cbn [bind] in H.
+  apply Ok_inj in H. subst os.
+  destruct (a_heading a) as [h|] eqn:Eh.
+  - destruct (heading_sections_lists _ _ _ a h E1) as (inl & H1 & H2).
+    + apply filter_In. rewrite Eh. tauto.
+    + exact Eh.
+    + apply (help_headings_complete vis a h Hvis Eh).
+    + exists inl. split; [apply in_or_app; tauto|exact H2].
+  - assert (In a (filter (fun a0 => negb (is_some (a_heading a0))) vis)) as Hin0 by (apply filter_In; rewrite Eh; tauto).
+    destruct (filter (fun a0 => negb (is_some (a_heading a0))) vis) as [|x xs] eqn:Ef; [destruct Hin0|].
+    destruct (options (x :: xs)) as [o|] eqn:Eo; [|cbn [bind] in E0; discriminate]. cbn [bind] in E0.
+    apply Ok_inj in E0. subst s0.
+    destruct (options_lists _ _ a Eo Hin0) as (inl & H1 & H2).
+    exists inl. split; [apply in_or_app; left; right; exact H1|exact H2].
+Qed.
+
+(** ... and that part is on the page. *)
+Theorem visible_arg_entry m d a :
+  man_doc m = Ok d -> In a (c_args (m_cmd m)) -> a_hide a = false ->
+  exists os inl, render_options_section m = Ok os /\ (forall l, In l os -> In l d)
+                 /\ In (Text inl) os /\ In (header_name a) inl.
+Proof.
+  intros H Hin Hv. unfold man_doc in H.
+  assert (app_has_arguments (m_cmd m) = true) as Ha.
+  { unfold app_has_arguments. apply existsb_exists. exists a. unfold visible. rewrite Hv. tauto. }
+  rewrite Ha in H.
+  destruct (render_options_section m) as [os|] eqn:Eo; [|cbn [bind] in H; discriminate]. cbn [bind] in H.
+  destruct (if app_has_version (m_cmd m) then render_version_section m else Ok []) as [vers|]; [|cbn [bind] in H; discriminate].
+  cbn [bind] in H. apply Ok_inj in H. subst d.
+  destruct (visible_arg_in_options m os a Eo Hin Hv) as (inl & H1 & H2).
+  exists os, inl. split; [reflexivity|]. split; [|tauto].
+  intros l Hl. do 4 (apply in_or_app; right). apply in_or_app. left. exact Hl.
+Qed.
